@@ -34,7 +34,9 @@ func TestProp(t *testing.T) {
 		"class_sign-out-302":                   10, "class_auth-only-202": 5, "class_auth-only-401": 5, "class_favicon.ico-404": 5,
 		"class_robots.txt-200": 10, "class_certs-200": 10, "class_path-clean-301": 20, "class_https-301": 40,
 		"class_timeout-503": 10, "class_bad-gateway-502": 10, "method_HEAD": 50, "method_OPTIONS": 50,
-		"https_upgrade_checked": 40, "set_cookie_session_set": 20, "set_cookie_session_clear": 20, "set_cookie_csrf_set": 50, "set_cookie_csrf_clear": 10,
+		"https_upgrade_checked": 40, "plain_http_xfp_absent": 3, "plain_http_xfp_http": 3, "plain_http_xfp_list-http-first": 3,
+		"plain_http_xfp_list-http-first-nospace": 3, "plain_http_xfp_two-lines-http-first": 3, "plain_http_xfp_ws": 3,
+		"plain_http_xfp_http+forwarded-proto-https": 3, "plain_http_xfp_absent+x-forwarded-ssl-on": 3, "set_cookie_session_set": 20, "set_cookie_session_clear": 20, "set_cookie_csrf_set": 50, "set_cookie_csrf_clear": 10,
 		"cookie_domain_checked_configured": 20, "cookie_domain_checked_request-host": 20,
 		"responses_checked_against_explicit_override": 100,
 		"upstream_hdr_mode_weak_chain_timeout":        20, "upstream_hdr_mode_weak_chain_flush": 20, "upstream_hdr_mode_weak_chain_none": 10,
